@@ -307,6 +307,16 @@ class Evaluator:
                 return int(vals[0])
             if name == "float":
                 return float(vals[0])
+            if name in ("math.isclose", "isclose"):
+                import math as _math
+                return _math.isclose(*vals, **{k: self.ev(v, loc) for k, v in kws})
+            if name in ("math.floor", "math.ceil", "math.fsum", "math.isnan", "math.isinf", "math.isfinite"):
+                import math as _math
+                return getattr(_math, name.split(".")[1])(*vals)
+            if name in ("round", "sorted", "tuple", "frozenset", "str", "bool", "dict", "enumerate", "zip", "reversed"):
+                r_ = {"round": round, "sorted": sorted, "tuple": tuple, "frozenset": frozenset, "str": str, "bool": bool, "dict": dict,
+                      "enumerate": enumerate, "zip": zip, "reversed": reversed}[name](*vals)
+                return list(r_) if name in ("enumerate", "zip", "reversed") else r_
         except TypeError:
             raise Crash("TypeError", show(t))
         except ValueError:
